@@ -11,11 +11,164 @@
 mod zf;
 #[path = "../present_types.rs"]
 mod present_types;
+use bytes::Bytes;
 use serde_json::{json, Value};
 use std::io::BufRead;
 use verif_harness::common::*;
 
+fn route_of(input: &Value) -> (String, String, String) {
+    let r = &input["route"];
+    let g = |i: usize, d: &str| r.get(i).and_then(|x| x.as_str()).unwrap_or(d).to_string();
+    (g(0, "new"), g(1, "wire"), g(2, "zone"))
+}
+
+/// The token route: the specification's record-data tokens read by
+/// ZoneRecordData::scan over an IterScanner (and, where the type has one, by
+/// the FromStr impl / UnknownRecordData::scan / base16::decode_vec).
+fn tok_obs(rec: &zf::FlatRecord, rtype: u16, toks: &Value) -> Value {
+    use domain::base::iana::Rtype;
+    use domain::base::name::Name;
+    use domain::base::rdata::UnknownRecordData;
+    use domain::base::scan::IterScanner;
+    use domain::rdata::{Ns, ZoneRecordData};
+    use std::str::FromStr;
+    let strs: Vec<String> = toks.as_array().map(|a| a.iter().map(|t| string_of(&t["t"])).collect()).unwrap_or_default();
+    let rd_json = |d: &zf::FlatData| {
+        use domain::base::rdata::ComposeRecordData;
+        let mut v: Vec<u8> = Vec::new();
+        let _ = d.compose_rdata(&mut v);
+        json!({"rd": json_bytes(&v)})
+    };
+    let mut sc = IterScanner::<_, Bytes>::new(strs.iter());
+    let first = match ZoneRecordData::<Bytes, Name<Bytes>>::scan(Rtype::from_int(rtype), &mut sc) {
+        Ok(d) if !sc.is_exhausted() => { let _ = d; return json!({"err": true}); }
+        Ok(d) => d,
+        Err(_) => return json!({"err": true}),
+    };
+    if first != *rec.data() {
+        return rd_json(&first);
+    }
+    // aliases
+    if [2u16, 5, 12, 39].contains(&rtype) {
+        match Ns::<Name<Bytes>>::from_str(&strs[0]) {
+            Ok(ns) => { let d: zf::FlatData = ZoneRecordData::Ns(ns); let want: zf::FlatData = ZoneRecordData::Ns(Ns::new(name_of(rec)));
+                        if d != want { return json!({"from_str": "differs"}); } }
+            Err(_) => return json!({"from_str": "err"}),
+        }
+    }
+    if strs.first().map(|s| s == "\\#").unwrap_or(false) {
+        let mut sc = IterScanner::<_, Bytes>::new(strs.iter());
+        match UnknownRecordData::<Bytes>::scan(Rtype::from_int(rtype), &mut sc) {
+            Ok(u) => { let d: zf::FlatData = ZoneRecordData::Unknown(u); if d != *rec.data() { return json!({"unknown_scan": "differs"}); } }
+            Err(_) => return json!({"unknown_scan": "err"}),
+        }
+        let hex: String = strs[2..].concat();
+        match domain::utils::base16::decode_vec(&hex) {
+            Ok(v) => { use domain::base::rdata::ComposeRecordData; let mut w: Vec<u8> = Vec::new(); let _ = rec.data().compose_rdata(&mut w);
+                       if v != w { return json!({"decode_vec": "differs"}); } }
+            Err(_) => return json!({"decode_vec": "err"}),
+        }
+    }
+    json!("eq")
+}
+
+fn name_of(rec: &zf::FlatRecord) -> domain::base::name::Name<Bytes> {
+    // the single name of NS-like data, from its wire form
+    use domain::base::rdata::ComposeRecordData;
+    let mut v: Vec<u8> = Vec::new();
+    let _ = rec.data().compose_rdata(&mut v);
+    domain::base::name::Name::from_octets(Bytes::from(v)).expect("name data")
+}
+
+/// Label texts: [l: octets, t: the specification's text]
+fn lbl_obs(ltexts: &Value) -> Value {
+    use domain::base::name::{Label, OwnedLabel};
+    use std::str::FromStr;
+    for e in ltexts.as_array().cloned().unwrap_or_default() {
+        let l = bytes_of(&e["l"]);
+        let label = match Label::from_slice(&l) { Ok(x) => x, Err(_) => return json!({"bad_label": json_bytes(&l)}) };
+        let lib_text = format!("{}", label);
+        for (who, t) in [("spec", string_of(&e["t"])), ("lib", lib_text.clone())] {
+            match OwnedLabel::from_str(&t) {
+                Ok(o) if o.as_label().as_slice() == &l[..] && format!("{}", o) == lib_text && o.as_label().is_wildcard() == (l == b"*") => {}
+                Ok(o) => return json!({"label": json_bytes(&l), "text": who, "read": json_bytes(o.as_label().as_slice())}),
+                Err(_) => return json!({"label": json_bytes(&l), "text": who, "err": true}),
+            }
+        }
+    }
+    json!("eq")
+}
+
+/// Character-string texts: [s: octets, t: the specification's unquoted text]
+fn cs_obs(ctexts: &Value) -> Value {
+    use domain::base::charstr::CharStr;
+    use domain::base::scan::{IterScanner, Scanner};
+    use std::str::FromStr;
+    for e in ctexts.as_array().cloned().unwrap_or_default() {
+        let s = bytes_of(&e["s"]);
+        let cs = match CharStr::from_octets(Bytes::copy_from_slice(&s)) { Ok(c) => c, Err(_) => return json!({"bad_charstr": true}) };
+        let lib_text = format!("{}", cs.display_unquoted());
+        for (who, t) in [("spec", string_of(&e["t"])), ("lib", lib_text)] {
+            match CharStr::<Bytes>::from_str(&t) {
+                Ok(c) if c.as_slice() == &s[..] => {}
+                Ok(c) => return json!({"charstr": json_bytes(&s), "text": who, "read": json_bytes(c.as_slice())}),
+                Err(_) => return json!({"charstr": json_bytes(&s), "text": who, "err": true}),
+            }
+            let toks = [t.clone()];
+            let mut sc = IterScanner::<_, Bytes>::new(toks.iter());
+            match sc.scan_charstr() {
+                Ok(c) if c.as_slice() == &s[..] => {}
+                _ => return json!({"charstr": json_bytes(&s), "text": who, "scan_charstr": "differs"}),
+            }
+        }
+    }
+    json!("eq")
+}
+
+fn opts_of<'a>(cfg: &Value, origin_v: &'a [u8]) -> zf::ReadOpts<'a> {
+    zf::ReadOpts {
+        origin: if origin_v.is_empty() { None } else { Some(origin_v) },
+        default_class: cfg["dclass"].as_i64().filter(|c| *c >= 0).map(|c| c as u16),
+        allow_invalid: cfg["allow"].as_bool().unwrap_or(false),
+    }
+}
+
+/// A zone case: records, a kind per record, the writing mode, the reader's
+/// configuration, the routes.  Observation: what the configured reader
+/// returns for the library's text and for the specification's text.
+fn run_zone(input: &Value) -> Value {
+    let z = &input["zone"];
+    let (mk, mkd, _) = route_of(input);
+    let mut recs = vec![];
+    for r in z["recs"].as_array().cloned().unwrap_or_default() {
+        match zf::record_via(&mk, &mkd, &bytes_of(&r["owner"]), r["class"].as_u64().unwrap_or(1) as u16,
+                             r["ttl"].as_u64().unwrap_or(0) as u32, r["rtype"].as_u64().unwrap_or(0) as u16, &bytes_of(&r["rdata"])) {
+            Ok(x) => recs.push(x),
+            Err(e) => return json!({"bad_wire": e}),
+        }
+    }
+    let kinds: Vec<String> = z["kinds"].as_array().map(|a| a.iter().map(|k| k.as_str().unwrap_or("simple").to_string()).collect()).unwrap_or_default();
+    let text = if z["mode"] == json!("fmt") {
+        zf::write_zone_fmt(&recs, kinds.first().map(|s| s.as_str()).unwrap_or("simple"))
+    } else {
+        recs.iter().zip(kinds.iter()).map(|(r, k)| zf::write_record(r, k)).collect::<String>()
+    };
+    zf::tick(&text);
+    let origin_v = bytes_of(&z["cfg"]["origin"]);
+    let o = opts_of(&z["cfg"], &origin_v);
+    let ctor = z["ctor"].as_str().unwrap_or("from_slice");
+    let mut obs = json!({"lib": zf::read_all_via(ctor, text.as_bytes(), &o)});
+    if let Some(st) = input.get("stext") {
+        obs["spec"] = zf::read_all_via(ctor, &bytes_of(st), &o);
+    }
+    obs
+}
+
 fn run_one(input: &Value) -> Value {
+    if input.get("zone").is_some() {
+        return run_zone(input);
+    }
+    let (mk, mkd, wr) = route_of(input);
     let (owner, class, ttl, rtype, rdata) = if let Some(t) = input.get("type_case") {
         // type sweep: (table row, variant) -> hand-assembled wire RDATA
         let table = present_types::type_table();
@@ -30,11 +183,11 @@ fn run_one(input: &Value) -> Value {
     let kind = input["kind"].as_str().unwrap_or("simple");
     let origin_v = bytes_of(&input["origin"]);
     let origin = if origin_v.is_empty() { None } else { Some(&origin_v[..]) };
-    let rec = match zf::record_from_wire(&owner, class, ttl, rtype, &rdata) {
+    let rec = match zf::record_via(&mk, &mkd, &owner, class, ttl, rtype, &rdata) {
         Ok(r) => r,
         Err(e) => return json!({"bad_wire": e}),
     };
-    let text = zf::write_record(&rec, kind);
+    let text = zf::write_record_via(&wr, &rec, kind);
     zf::tick(&text);
     let mut lib = zf::read_back(&rec, text.as_bytes(), origin);
     if input.get("type_case").is_some() && lib != json!("eq") {
@@ -44,6 +197,15 @@ fn run_one(input: &Value) -> Value {
     let mut obs = json!({"lib": lib});
     if let Some(st) = input.get("stext") {
         obs["spec"] = zf::read_back(&rec, &bytes_of(st), origin);
+    }
+    if let Some(toks) = input.get("toks") {
+        obs["tok"] = tok_obs(&rec, rtype, toks);
+    }
+    if let Some(l) = input.get("ltexts") {
+        obs["lbl"] = lbl_obs(l);
+    }
+    if let Some(c) = input.get("ctexts") {
+        obs["cs"] = cs_obs(c);
     }
     obs
 }
